@@ -113,6 +113,14 @@ class Cursor:
                 self.seek_ok(op)
             if op[0] == 'P' and pl['pos'] != '-':
                 self.saved.append(pl['pos'])
+            # a FORMAT error returned while the cursor is not tracked is still the error of the input: the stream has
+            # at most one error item (its first invalid record), and C17 wants it identified identically in every history
+            if (not self.wild and kind == 'err' and out.split(' ')[1:2] and out.split(' ')[1] not in ('buflimit', 'io')):
+                errs = [it for it in self.items if it['kind'] == 'err']
+                if not errs:
+                    self.fail(i, 'error %s but the input has no invalid record' % out[:40])
+                elif not err_equal(errs[0]['text'], out, self.level):
+                    self.fail(i, 'error differs: got %s, spec %s' % (out[:90], errs[0]['text'][:90]))
             return True
         if kind == 'err' and out.split(' ')[1:2] and out.split(' ')[1] in ('buflimit', 'io'):
             # refused growth / injected source failure: legitimate outcomes that the cursor machine does
@@ -120,6 +128,11 @@ class Cursor:
             # buffer limit has consumed nothing: the same record is still pending (and is delivered once a
             # more generous policy is installed).  In every other case nothing more is checked.
             if out.split(' ')[1] == 'buflimit' and op[0] in 'NOM':
+                return True
+            # a seek whose SOURCE seek failed leaves the reader as it was (nothing is read, nothing moves): the cursor
+            # stays; a seek whose refill failed has finished the reader
+            if op[0] in 'KJ' and not any(e.startswith('r') and ':F' in e for e in pl['ev']) \
+                    and any(e.startswith('s') and ':F' in e for e in pl['ev']):
                 return True
             self.unknown = True
             return True
